@@ -324,6 +324,7 @@ pub fn run_shutdown(focus: &'static str, seed: u64, index: u64) -> CaseOut {
         let (shutdown_returned, go) = (shutdown_returned.clone(), go.clone());
         writer_crew.spawn(move || {
             let mut client = Client::new(t as u64 + 1);
+            client.pre_poll_every = 3;
             let mut post: Vec<(u64, String)> = Vec::new();
             while !go.load(Ordering::SeqCst) { thread::yield_now(); }
             let mut after = 0;
@@ -400,6 +401,7 @@ pub fn run_shutdown(focus: &'static str, seed: u64, index: u64) -> CaseOut {
     let mut logs: Vec<OpRec> = Vec::new();
     match writer_crew.join("the writers around shutdown to finish") {
         Ok(results) => for (client, post) in results {
+            counts.add("acknowledgements_first_polled_by_another_task", client.pre_polls);
             logs.extend(client.log);
             for (at, what) in post { fail(&mut findings, &["C13"], "C13/api-works-after-shutdown/other-thread".into(), format!("at stamp {} (after shutdown() had returned elsewhere): {}", at, what), case.clone()); }
         },
